@@ -87,6 +87,15 @@ Inductive method :=
 | MMapInto (t : bytes)                                                (* func (in T) DeepCopyInto(out T) *)
 | MUnknown.
 
+(* the identity of a declared method: receiver type name and method name (Go rejects a second declaration) *)
+Definition method_id (m : method) : option (bytes * nat) :=
+  match m with
+  | MObject t _ _ _ => Some (t, 0)
+  | MPtrCopy t _ | MMapCopy t => Some (t, 1)
+  | MPtrInto t _ _ | MMapInto t => Some (t, 2)
+  | MUnknown => None
+  end.
+
 Definition n_copy : bytes := bs "DeepCopy".
 Definition n_into : bytes := bs "DeepCopyInto".
 Definition n_object : bytes := bs "DeepCopyObject".
